@@ -91,7 +91,7 @@ func cmdCheck(args []string) int {
 	repoDirty0 := repoStatus()
 
 	// symbolic runs, in parallel
-	par := 8
+	par := 12
 	if s := os.Getenv("VERIF_JOBS"); s != "" {
 		par, _ = strconv.Atoi(s)
 	}
